@@ -1,0 +1,21 @@
+//go:build !windows && verif
+
+package filesystem
+
+// VerifSyscallHook, if non-nil, is invoked before every filesystem system call
+// issued through this package's EINTR-retrying wrappers (and before directory
+// content reads). It receives the operation name, the directory descriptor (or
+// file descriptor for descriptor-based operations) and path of the primary
+// operand, and the directory descriptor and path of the secondary operand (for
+// rename operations; the link target for symlinkat). It may block, and if it
+// returns a non-nil error then the system call is not performed and the error
+// is returned in its place. It only exists in verification builds.
+var VerifSyscallHook func(op string, dirfd int, path string, dirfd2 int, path2 string) error
+
+// verifSyscall invokes VerifSyscallHook, if any.
+func verifSyscall(op string, dirfd int, path string, dirfd2 int, path2 string) error {
+	if hook := VerifSyscallHook; hook != nil {
+		return hook(op, dirfd, path, dirfd2, path2)
+	}
+	return nil
+}
